@@ -27,7 +27,10 @@ type c20PumpRes struct {
 	LatencyMS   int
 }
 
-type c20Pump struct{ Results []c20PumpRes }
+type c20Pump struct {
+	Results  []c20PumpRes
+	SignalAt int // >= 0: one SIGINT is delivered before this result (the attack is stopped, the pump keeps draining)
+}
 
 func runC20Pump(c c20Pump) error {
 	pm := prom.NewMetrics()
@@ -46,13 +49,22 @@ func runC20Pump(c c20Pump) error {
 	count := map[key]uint64{}
 	in := map[key]float64{}
 	fails := map[key]float64{}
+	type mkey struct {
+		k   key
+		msg string
+	}
+	failsMsg := map[mkey]float64{}
 	for i, r := range c.Results {
+		if c.SignalAt == i {
+			sig <- os.Interrupt
+		}
 		res <- &vegeta.Result{Seq: uint64(i), Method: r.Method, URL: r.URL, Code: r.Code, Error: r.Err, BytesIn: r.In, BytesOut: r.Out, Latency: time.Duration(r.LatencyMS) * time.Millisecond}
 		k := key{r.Method, r.URL, strconv.Itoa(int(r.Code))}
 		count[k]++
 		in[k] += float64(r.In)
 		if r.Err != "" {
 			fails[k]++
+			failsMsg[mkey{k, r.Err}]++
 		}
 	}
 	close(res)
@@ -74,6 +86,7 @@ func runC20Pump(c c20Pump) error {
 	gotCount := map[key]uint64{}
 	gotIn := map[key]float64{}
 	gotFails := map[key]float64{}
+	gotFailsMsg := map[mkey]float64{}
 	for _, f := range fams {
 		for _, m := range f.GetMetric() {
 			l := map[string]string{}
@@ -88,6 +101,7 @@ func runC20Pump(c c20Pump) error {
 				gotIn[k] += m.GetCounter().GetValue()
 			case "request_fail_count":
 				gotFails[k] += m.GetCounter().GetValue()
+				gotFailsMsg[mkey{k, l["message"]}] += m.GetCounter().GetValue()
 			}
 		}
 	}
@@ -102,6 +116,16 @@ func runC20Pump(c c20Pump) error {
 			return fmt.Errorf("request_fail_count for (%q, %q, %s) = %v, %v results carried an error", k.m, k.u, k.s, gotFails[k], fails[k])
 		}
 	}
+	for mk, n := range failsMsg {
+		if gotFailsMsg[mk] != n {
+			return fmt.Errorf("request_fail_count{message=%q} for (%q, %q, %s) = %v, %v results carried that error", mk.msg, mk.k.m, mk.k.u, mk.k.s, gotFailsMsg[mk], n)
+		}
+	}
+	for mk, v := range gotFailsMsg {
+		if failsMsg[mk] == 0 && v != 0 {
+			return fmt.Errorf("request_fail_count{message=%q} = %v although no result carried that error text", mk.msg, v)
+		}
+	}
 	for k := range gotCount {
 		if count[k] == 0 {
 			return fmt.Errorf("metrics exported for a label set %v that no result had", k)
@@ -112,15 +136,21 @@ func runC20Pump(c c20Pump) error {
 
 func TestC20Pump(t *testing.T) {
 	vh.Check(t, 150, 4000, func(t *rapid.T) {
-		var c c20Pump
+		c := c20Pump{SignalAt: -1}
 		n := rapid.IntRange(0, 30).Draw(t, "n")
+		if rapid.IntRange(0, 2).Draw(t, "signal") == 0 {
+			c.SignalAt = rapid.IntRange(0, n).Draw(t, "signalat")
+		}
 		noTarget := false
 		for i := 0; i < n; i++ {
 			r := c20PumpRes{Method: rapid.SampledFrom([]string{"GET", "POST"}).Draw(t, "m"), URL: rapid.SampledFrom([]string{"http://a.test/", "http://a.test/x"}).Draw(t, "u"),
 				Code: rapid.SampledFrom([]uint16{200, 200, 404, 500, 0}).Draw(t, "c"), In: rapid.Uint64Range(0, 1<<20).Draw(t, "in"), Out: rapid.Uint64Range(0, 1<<20).Draw(t, "out"),
 				LatencyMS: rapid.IntRange(0, 3000).Draw(t, "lat")}
 			if r.Code < 200 || r.Code >= 400 {
-				r.Err = rapid.SampledFrom([]string{"bad", "EOF", "no targets to attack"}).Draw(t, "e")
+				r.Err = rapid.SampledFrom([]string{"bad", "EOF", "no targets to attack", "404 Not Found",
+					"Get \"http://a.test/\": read tcp 127.0.0.1:54321->127.0.0.1:80: read: connection reset by peer",
+					"Get \"http://a.test/\": read tcp 127.0.0.1:54399->127.0.0.1:80: read: connection reset by peer",
+					"Get \"http://a.test/\": dial tcp 0.0.0.0:0->127.0.0.1:9: connect: connection refused"}).Draw(t, "e")
 			}
 			if rapid.IntRange(0, 5).Draw(t, "notarget") == 0 {
 				// what Attacker.hit delivers when the targeter fails: no method, no URL, status 0, the error
@@ -130,7 +160,7 @@ func TestC20Pump(t *testing.T) {
 			c.Results = append(c.Results, r)
 		}
 		sig, _ := json.Marshal(c)
-		vh.Case("C20.pump", string(sig), noTarget && n >= 2, fmt.Sprintf("result-without-target:%v", noTarget))
+		vh.Case("C20.pump", string(sig), (noTarget || c.SignalAt >= 0) && n >= 2, fmt.Sprintf("result-without-target:%v", noTarget), fmt.Sprintf("signal:%v", c.SignalAt >= 0 && c.SignalAt < n))
 		vh.Sample("C20.pump", noTarget && n <= 4, c)
 		if err := runC20Pump(c); err != nil {
 			vh.Fail(t, "C20", "C20.pump", c, err)
